@@ -13,24 +13,10 @@ import (
 
 // --- phase files: the same oracles through obj.Save / obj.SaveAll / obj.Load -------------
 
-// scratchDir returns a directory private to this worker process: the directory of the
-// worker's journal (the worker's scratch directory) when running as a worker, a fresh
-// temporary directory in replay mode. The second result removes what was created.
+// scratchDir returns a fresh directory inside the worker's scratch directory; the second
+// result removes it.
 func scratchDir(c *run.Ctx) (string, func(), error) {
-	base := ""
-	for i, a := range os.Args {
-		if a == "-journal" && i+1 < len(os.Args) {
-			base = filepath.Dir(os.Args[i+1])
-		}
-	}
-	if base == "" {
-		d, err := os.MkdirTemp("", "c05-files-")
-		if err != nil {
-			return "", nil, err
-		}
-		return d, func() { os.RemoveAll(d) }, nil
-	}
-	d := filepath.Join(base, fmt.Sprintf("c05-files-%d-%d", os.Getpid(), c.Case))
+	d := filepath.Join(scratch(c), fmt.Sprintf("c05-files-%d-%d", os.Getpid(), c.Case))
 	if err := os.MkdirAll(d, 0o755); err != nil {
 		return "", nil, err
 	}
